@@ -37,8 +37,8 @@ def expected : List (String × List String) := [
   ("DefaultHandler.ServeIncoming", ["chan-send root.DefaultHandler.incoming"]),
   ("DefaultHandler.Stop", ["field:root.DefaultHandler.cancel"]),
   ("DefaultHandler.StopWithError", ["chan-send root.DefaultHandler.errors"]),
-  ("HandlerPool.Add", ["{", "lock root.HandlerPool.<mutex>", "defer-unlock root.HandlerPool.<mutex>", "}"]),
-  ("HandlerPool.Remove", ["lock root.HandlerPool.<mutex>", "defer-unlock root.HandlerPool.<mutex>"]),
+  ("HandlerPool.Add", ["{", "lock root.HandlerPool.<rwmutex>", "defer-unlock root.HandlerPool.<rwmutex>", "}"]),
+  ("HandlerPool.Remove", ["lock root.HandlerPool.<rwmutex>", "defer-unlock root.HandlerPool.<rwmutex>"]),
   ("IncomingHandlerPool.Add", ["root.IncomingHandlerPool.add"]),
   ("IncomingHandlerPool.Range", ["root.IncomingHandlerPool.handlersByMsgType"]),
   ("Initiator.Close", ["root.Conn.Close", "field:root.Initiator.cancel"]),
